@@ -1074,6 +1074,17 @@ class FunctionScope(Scope):
         # We set both a constraint and its inverse using the same node as the definition
         # node, so cheat and include the constraint itself in the key.
         node = (node, constraint)
+        existing = self.definition_node_to_value.get(node)
+        if isinstance(existing, _ConstrainedValue):
+            # The same constraint was already added at this node: a condition stored
+            # in a variable can carry it more than once, and a loop body is visited
+            # more than once. Keep the definitions seen before instead of replacing
+            # them; otherwise the constrained value can end up as its own only
+            # definition, which resolves to Never.
+            def_nodes = tuple(
+                dict.fromkeys([*existing.definition_nodes, *def_nodes])
+            )
+        def_nodes = tuple(n for n in def_nodes if n != node)
         val = _ConstrainedValue(def_nodes, [constraint])
         self.definition_node_to_value[node] = val
         self.name_to_current_definition_nodes[varname] = [node]
